@@ -195,7 +195,11 @@ func TestSim(t *testing.T) {
 			} else {
 				d.workload()
 				d.settle()
-				prof.Check(d, res)
+				if d.SettleExhausted {
+					res.Error = "settle phase step budget exhausted while bytes were still moving (harness limit, not a violation)"
+				} else {
+					prof.Check(d, res)
+				}
 			}
 		}
 		res.LogHash = k.LogHash()
